@@ -39,3 +39,82 @@ fn cryptoutil_read_u32_le_refuses_bad_len() {
     let _ = read_u32_le(&b[..n]);
     kani::cover!(true);
 }
+
+// write_u32v_le(dst, src): dst == little-endian bytes of the words, at the two lengths the crate's callers use through
+// the ChaCha/Salsa engines (16 words -> 64 bytes, 4 words -> 16 bytes); contract text of the Verus stub in
+// units/inc/cryptoutil_stream_stubs.rs
+// @harness props=C03,C04,C16,C20 kind=full tier=quick
+#[kani::proof]
+#[kani::unwind(65)]
+fn cryptoutil_write_u32v_le_16_and_4() {
+    let w: [u32; 16] = kani::any();
+    let mut d = [0u8; 64];
+    write_u32v_le(&mut d, &w);
+    let mut i = 0;
+    while i < 64 {
+        assert!(d[i] == (w[i / 4] >> (8 * (i % 4))) as u8);
+        i += 1;
+    }
+    let mut e = [0u8; 16];
+    write_u32v_le(&mut e, &w[3..7]);
+    let mut i = 0;
+    while i < 16 {
+        assert!(e[i] == (w[3 + i / 4] >> (8 * (i % 4))) as u8);
+        i += 1;
+    }
+    kani::cover!(true);
+}
+// a destination whose length is not 4 * words is refused
+// @harness props=C20 kind=bounded bound=len<=20,words=4 tier=quick expect=refuse
+#[kani::proof]
+#[kani::unwind(21)]
+fn cryptoutil_write_u32v_le_refuses_bad_len() {
+    let w: [u32; 4] = kani::any();
+    let mut d = [0u8; 20];
+    let n: usize = kani::any();
+    kani::assume(n <= 20 && n != 16);
+    write_u32v_le(&mut d[..n], &w);
+    kani::cover!(true);
+}
+// xor_keystream_mut(buf, ks): buf'[i] == buf[i] ^ ks[i] for i < len(buf), nothing else written, for every buf length <= L
+// and every keystream length in len(buf)..=L.  Its callers pass at most one 64-byte block.  Bounded in length only.
+fn check_xor_keystream<const L: usize>() {
+    let mut b: [u8; L] = kani::any();
+    let k: [u8; L] = kani::any();
+    let b0 = b;
+    let n: usize = kani::any();
+    let m: usize = kani::any();
+    kani::assume(n <= m && m <= L && n + 2 <= L);
+    xor_keystream_mut(&mut b[1..1 + n], &k[..m]);
+    let mut i = 0;
+    while i < L {
+        if i >= 1 && i < 1 + n {
+            assert!(b[i] == b0[i] ^ k[i - 1]);
+        } else {
+            assert!(b[i] == b0[i]);
+        }
+        i += 1;
+    }
+    kani::cover!(true);
+}
+// @harness props=C04,C03,C20 kind=bounded bound=len<=22 tier=quick
+#[kani::proof]
+#[kani::unwind(26)]
+fn cryptoutil_xor_keystream_mut_24() { check_xor_keystream::<24>() }
+// @harness props=C04,C03,C20 kind=bounded bound=len<=64 tier=thorough timeout=1200
+#[kani::proof]
+#[kani::unwind(68)]
+fn cryptoutil_xor_keystream_mut_66() { check_xor_keystream::<66>() }
+// a keystream shorter than the buffer is refused
+// @harness props=C20 kind=bounded bound=len<=16 tier=quick expect=refuse
+#[kani::proof]
+#[kani::unwind(18)]
+fn cryptoutil_xor_keystream_mut_refuses_short_keystream() {
+    let mut b: [u8; 16] = kani::any();
+    let k: [u8; 16] = kani::any();
+    let n: usize = kani::any();
+    let m: usize = kani::any();
+    kani::assume(n <= 16 && m < n);
+    xor_keystream_mut(&mut b[..n], &k[..m]);
+    kani::cover!(true);
+}
